@@ -55,6 +55,7 @@ var files = []genFile{
 					"p.procConf.RestartPolicy.Restart":     "policy",
 					"p.procConf.RestartPolicy.MaxRestarts": "maxRestarts",
 					"p.procState.Restarts":                 "restarts",
+					"p.getRestarts()":                      "restarts",
 				},
 				Consts: map[string][2]string{
 					"types.RestartPolicyNo":            {"src/types/process.go", "RestartPolicyNo"},
